@@ -25,10 +25,12 @@ type boundedSpec struct {
 }
 
 var boundedByProp = map[string][]boundedSpec{
-	"C11": {{"c11_bounded_test.go", "TestBoundedC11"}},
+	"C11": {{"c11_bounded_test.go", "TestBoundedC11"}, {"c11path_bounded_test.go", "TestBoundedC11Path"}},
 	"C14": {{"c14_bounded_test.go", "TestBoundedC14"}},
 	"C17": {{"c17_bounded_test.go", "TestBoundedC17"}},
 }
+
+var boundedTier = "quick"
 
 var reBounded = regexp.MustCompile(`^BOUNDED name=(\S+) evaluations=(\d+) bound=("(?:[^"\\]|\\.)*") status=(ok|FAIL)(?: input=("(?:[^"\\]|\\.)*") detail=("(?:[^"\\]|\\.)*"))?`)
 
@@ -83,7 +85,7 @@ func runBounded(verif, repo string, sp boundedSpec) (string, error) {
 	}
 	defer os.RemoveAll(dir)
 	repl := map[string]string{}
-	for _, f := range []string{"common_bounded_test.go", sp.File} {
+	for _, f := range []string{"common_bounded_test.go", "fakeconn_bounded_test.go", sp.File} {
 		repl[filepath.Join(repo, "zz_"+f)] = filepath.Join(verif, "bounded", f)
 	}
 	ovb, _ := json.Marshal(map[string]map[string]string{"Replace": repl})
@@ -91,7 +93,7 @@ func runBounded(verif, repo string, sp boundedSpec) (string, error) {
 	os.WriteFile(ovf, ovb, 0o644)
 	cmd := exec.Command("go", "test", "-overlay", ovf, "-vet=off", "-count=1", "-timeout", "600s", "-run", "^"+sp.Test+"$", "-v", ".")
 	cmd.Dir = repo
-	cmd.Env = append(os.Environ(), "GOFLAGS=-mod=mod", "GOPROXY=off", "GOSUMDB=off", "GOTOOLCHAIN=local")
+	cmd.Env = append(os.Environ(), "GOFLAGS=-mod=mod", "GOPROXY=off", "GOSUMDB=off", "GOTOOLCHAIN=local", "VERIF_TIER="+boundedTier)
 	out, err := cmd.CombinedOutput()
 	return string(out), err
 }
